@@ -27,7 +27,7 @@ import AutomataVerif.Driver.Proto
 import AutomataVerif.Model.ValidateAll
 import AutomataVerif.Model.Instance
 
-namespace AV.Driver.Misc
+namespace AV.VA.Driver
 open AV AV.Proto
 
 def states (n : Nat) : List Int := (List.range n).map Int.ofNat
@@ -291,4 +291,4 @@ def handle (cmd : String) (args : List String) : Except String String :=
   | "PING" => .ok "pong"
   | _ => .error s!"unknown command {cmd}"
 
-end AV.Driver.Misc
+end AV.VA.Driver
